@@ -128,17 +128,36 @@ Fixpoint events_eqb (a b : list cevent) : bool :=
   | _, _ => false
   end.
 
+(* does the schedule fit the model's critical-section structure: every entry runs a section of a
+   thread that still has work, and at the end every thread is done *)
+Fixpoint sched_fits (H : values -> Z) (c : cstate) (sched : list nat) : bool :=
+  match sched with
+  | [] => forallb (fun th => match t_todo th with [] => true | _ => false end) (c_thr c)
+  | tid :: r =>
+    match nth_error (c_thr c) tid with
+    | Some th => match t_todo th with [] => false | _ => sched_fits H (fst (cstep H c tid)) r end
+    | None => false
+    end
+  end.
+
+(* 0: the schedule fits, the implementation's results are the model's (hence linearizable, theorem
+   vec_concurrent_linearizable); 2: the scheduler reported a deadlock/panic, or NO interleaving of the
+   calls explains the results on the plain map; 1: otherwise (results or lock structure differ from
+   the model, but some sequential explanation exists) *)
 Definition check_sched (hm : Z) (names : list str) (progs : list (list creq)) (sched : list nat)
            (res : list (list result)) (flags : Z) : Z :=
   let H := Hfold fnv_offset64 (hmode_add hm) (hmode_addb hm) in
-  let '(c', hist) := crun H (cinit_run progs) sched in
-  let all_done := forallb (fun th => match t_todo th with [] => true | _ => false end) (c_thr c') in
-  match impl_history hist res with
-  | Some (ih, rem) =>
-      let complete := all_done && forallb (fun l => match l with [] => true | _ => false end) rem in
-      both (lin_ok init_sworld ih && (flags =? 0)) (complete && events_eqb hist ih)
-  | None => both (flags =? 0) false
-  end.
+  let hist := snd (crun H (cinit_run progs) sched) in
+  let model_good :=
+    sched_fits H (cinit_run progs) sched &&
+    match impl_history hist res with
+    | Some (ih, rem) => forallb (fun l => match l with [] => true | _ => false end) rem &&
+                        events_eqb hist ih && lin_ok init_sworld ih
+    | None => false
+    end in
+  if model_good && (flags =? 0) then code_ok
+  else if negb (flags =? 0) || negb (sc_explains progs res) then code_spec_violation
+  else code_model_mismatch.
 
 Definition d_triple (s : sx) : option (Z * Z * Z) := dT3 dZ dZ dZ s.
 
